@@ -55,3 +55,16 @@ pub fn match_header_value_vectored(bytes: &mut Bytes) {
         }
     }
 }
+
+// Verification hook (H2): read/write the cached feature cell so a single binary can
+// exercise every dispatch arm and re-create cold starts. Compiled only with
+// `--cfg httparse_verif`.
+#[cfg(httparse_verif)]
+pub fn verif_set_runtime_feature(v: u8) {
+    RUNTIME_FEATURE.store(v, Ordering::Relaxed);
+}
+
+#[cfg(httparse_verif)]
+pub fn verif_get_runtime_feature() -> u8 {
+    RUNTIME_FEATURE.load(Ordering::Relaxed)
+}
